@@ -62,6 +62,8 @@ def run(tape: Tape, params: dict) -> Outcome:
     world.app = host
     cfg = world.config
     out = Outcome()
+    # a second bind: every listening socket stops accepting at shutdown, not only one of them
+    second = world.add_listener() if (case is None and tape.chance(1, 4, "cfg.second_listener")) else None
     G = tape.choice([1.0, 0.5, 3.0], "cfg.graceful")
     S = tape.choice([2.0, 0.5, 5.0], "cfg.shutdown")
     cfg.graceful_timeout = G
@@ -266,6 +268,12 @@ def _check(world: World, host: AppHost, conns: List[Dict[str, Any]], late: Scrip
     lc = world.listener.closed_at
     if lc is None or lc > t0 + DELTA:
         bad("listener-closed", f"listener closed at {lc}, shutdown began at {t0:.3f}")
+    second = world.extra_listeners[0] if world.extra_listeners else None
+    if second is not None:
+        world.sim.probe("c15.second_listener")
+        lc2 = second.closed_at
+        if lc2 is None or lc2 > t0 + DELTA:
+            bad("listener-closed", f"second listener closed at {lc2}, shutdown began at {t0:.3f}", which="second")
     if any(i.tag == b"lateconn" for i in host.instances) or late.parser.responses:
         bad("late-connection-served", "a connection made after the trigger was served")
     # 3. lifespan shutdown ran exactly once and not before the drain
